@@ -43,7 +43,7 @@ import (
 // rule is applied to that member.
 
 type c16Step struct {
-	Kind  int  `json:"k"` // 0 NotifyJoin 1 NotifyLeave 2 NotifyUpdate 3 join intent 4 leave intent 5 cross traffic 6 reap everything 7 pause 8 reader drains 9 concurrent pair
+	Kind  int  `json:"k"` // 0 NotifyJoin 1 NotifyLeave 2 NotifyUpdate 3 join intent 4 leave intent 5 cross traffic 6 reap everything 7 pause 8 reader drains 9 concurrent pair 10 flood (see genC16) 11 reader drains until the pipeline is silent
 	M     int  `json:"m"`
 	Same  bool `json:"same,omitempty"` // act on the member of the previous member step
 	Rel   int  `json:"r,omitempty"`
@@ -142,6 +142,27 @@ func genC16(t *rapid.T) c16Case {
 			st.Pair = rapid.IntRange(0, 3).Draw(t, "pair")
 		}
 		c.Steps = append(c.Steps, st)
+	}
+	// One case in eight lets the pipeline overflow: snapshot stage on, a small
+	// application channel, a reader that does not read, and (step 10) more tag
+	// updates of one member than the stages between the snapshot stage and the
+	// application can hold (1024 + the channel). What does not fit is dropped
+	// there - that is the design - but what does arrive must still arrive in
+	// order, also after the reader has caught up (step 11) and further updates
+	// follow. For the piped node of such a case only the order is judged.
+	if rapid.IntRange(0, 7).Draw(t, "overflow") == 0 {
+		c.Snap, c.Coalesce, c.Quiescent, c.Eager = true, 0, 0, false
+		c.SmallCh = rapid.SampledFrom([]int{2, 8}).Draw(t, "overflow.ch")
+		at := rapid.IntRange(0, len(c.Steps)).Draw(t, "overflow.at")
+		m := rapid.IntRange(0, c.Members-1).Draw(t, "overflow.m")
+		tail := []c16Step{{Kind: 0, M: m}, {Kind: 10, M: m, Same: true}, {Kind: 11}}
+		for i, k := 0, rapid.IntRange(2, 6).Draw(t, "overflow.more"); i < k; i++ {
+			tail = append(tail, c16Step{Kind: 2, M: m, Same: true})
+			if rapid.IntRange(0, 2).Draw(t, "overflow.drain") == 0 {
+				tail = append(tail, c16Step{Kind: 11})
+			}
+		}
+		c.Steps = append(append(append([]c16Step{}, c.Steps[:at]...), tail...), c.Steps[at:]...)
 	}
 	return c
 }
@@ -299,6 +320,9 @@ type c16Node struct {
 	tainted   map[string]string // member -> why its exact sequence is unknown
 	bogus     string
 	raw       []string // every member event as received, in order (diagnostics)
+	// lossy: the harness made the pipeline overflow (step 10), so events were
+	// dropped by design; only the order of what arrives is judged
+	lossy bool
 }
 
 func (d *c16Node) view() map[string]c16Snap {
@@ -546,6 +570,31 @@ func bodyC16(c c16Case, x *vkit.Ctx) {
 				poll(d.n, d.absorb)
 			}
 			sinceDrain = map[string]int{}
+		case 11:
+			for _, d := range nodes {
+				settle(d.n, 2*time.Millisecond, d.absorb)
+			}
+			sinceDrain = map[string]int{}
+		case 10:
+			if !c.Snap || c.SmallCh <= 0 || c.SmallCh > 64 || c.Coalesce > 0 || piped.lossy {
+				continue
+			}
+			i, ok := pick(st, lastM, true)
+			if !ok {
+				continue
+			}
+			lastM = i
+			// the twin's reader keeps up (its handlers would block on a full
+			// channel); the piped node's does not read at all
+			for k := 0; k < 1024+c.SmallCh+96; k++ {
+				tags[i]++
+				for _, d := range nodes {
+					notify(d, 2, i)
+					d.observe(why)
+				}
+				poll(twin.n, twin.absorb)
+			}
+			piped.lossy = true
 		case 9:
 			i := target(st, lastM)
 			lastM = i
@@ -575,6 +624,9 @@ func bodyC16(c c16Case, x *vkit.Ctx) {
 				// lock this changes nothing; a send outside of it gets overtaken.
 				d.slow.on.Store(true)
 				c16Sink.on.Store(true)
+				// ... and, in two pairs of three, every goroutine of the node lingers
+				// after releasing one of serf's mutexes (helpers_test.go: lockYield)
+				lockYield((si + st.Pair) % 3)
 				start := make(chan struct{})
 				var wg sync.WaitGroup
 				wg.Add(2)
@@ -582,6 +634,7 @@ func bodyC16(c c16Case, x *vkit.Ctx) {
 				go func() { defer wg.Done(); <-start; other() }()
 				close(start)
 				wg.Wait()
+				lockYield(0)
 				d.slow.on.Store(false)
 				c16Sink.on.Store(false)
 				if d.tainted[name(i)] == "" {
@@ -625,7 +678,7 @@ func bodyC16(c c16Case, x *vkit.Ctx) {
 		}
 		sort.Strings(names)
 		for _, m := range names {
-			if m == self {
+			if m == self || d.lossy {
 				continue
 			}
 			exp, got := d.exp[m], d.got[m]
@@ -712,6 +765,15 @@ func bodyC16(c c16Case, x *vkit.Ctx) {
 				continue
 			}
 			exp, got := d.exp[m], d.got[m]
+			if d.lossy {
+				// the overflow dropped events, possibly the last ones: order only
+				if d.tainted[m] == "" && !c16Subseq(got, d.gotTag[m], exp) {
+					x.Violationf("member-events-out-of-order-after-overflow", "%s: member %s: received (last 12 of %d) %s is not an in-order subsequence of its %d status changes (app channel %d)",
+						d.label, m, len(got), c16Got(got[max(0, len(got)-12):], d.gotTag[m][max(0, len(got)-12):]...), len(exp), c.SmallCh)
+					return
+				}
+				continue
+			}
 			if len(got) > 0 && !c16Agrees(got[len(got)-1], final[d][m]) {
 				x.Violationf("last-member-event-disagrees-with-status", "%s: member %s is %+v but the last event received is %q (received %s, status changes %s; tainted=%q; events as received %q)",
 					d.label, m, final[d][m], c16KindName[got[len(got)-1]], c16Got(got), c16Seq(exp), d.tainted[m], d.raw)
@@ -772,6 +834,9 @@ func bodyC16(c c16Case, x *vkit.Ctx) {
 	x.Labelf("app-channel-capacity=%d", c.SmallCh)
 	if pairs > 0 {
 		x.Label("concurrent-pair")
+	}
+	if piped.lossy {
+		x.Label("pipeline-overflow")
 	}
 	if burst3 {
 		x.Label(">=3-changes-of-one-member-while-reader-lags")
